@@ -44,6 +44,20 @@ class World:
         CLOCK.now = 1_000_000
         self.store, self.srv, self.rp = ms.build(oidc=oidc, pkce_required=pkce_required, scopes_supported=supported, framework=framework)
         self.framework = framework
+        # a resource server that is not co-located with the provider: rfc7662.IntrospectTokenValidator asking the provider's introspection endpoint
+        from authlib.oauth2.rfc7662 import IntrospectTokenValidator
+        from authlib.oauth2 import ResourceProtector as _RP
+        world = self
+
+        class Remote(IntrospectTokenValidator):
+            def introspect_token(self, token_string):
+                ep = world.srv._endpoints["introspection"][0]
+                tok = ep.query_token(token_string, "access_token")
+                if tok is not None and tok.access_token != token_string:
+                    tok = None                       # the resource server asks about an ACCESS token
+                return ep.create_introspection_payload(tok)
+        self.rp_remote = _RP()
+        self.rp_remote.register_token_validator(Remote())
         self.store.strict_hint = strict_hint
         for cid, sec, m, sc, uris in CLIENTS:
             self.store.clients[cid] = Client(cid, sec, uris, sc, ms.ALL_GRANT_TYPES, ms.ALL_RESPONSE_TYPES, m)
@@ -128,6 +142,9 @@ class World:
             if k == "access":
                 class R: headers = {"Authorization": "Bearer " + op["token"]} if op.get("token") is not None else {}
                 try:
+                    if op.get("via") == "introspection":
+                        self.rp_remote.validate_request(op.get("required"), R)
+                        return self.out(200, {"access_token": op["token"]})
                     t = self.rp.validate_request(op.get("required"), R)
                     return self.out(200, {"access_token": t.access_token})
                 except OAuth2Error as e:
@@ -135,7 +152,7 @@ class World:
             hdr, extra = auth_of(op)
             if k == "redeem":
                 f = {"grant_type": "authorization_code"}
-                for fld, key in (("code", "code"), ("redirect", "redirect_uri"), ("verifier", "code_verifier")):
+                for fld, key in (("code", "code"), ("redirect", "redirect_uri"), ("verifier", "code_verifier"), ("req_scope", "scope")):
                     if op.get(fld) is not None:
                         f[key] = op[fld]
                 r = ms.fw_call(srv, Req("POST", ms.TOKEN_URL, dict(f, **extra), hdr), "create_token_response")
@@ -148,6 +165,7 @@ class World:
             elif k == "poll":
                 f = {"grant_type": "urn:ietf:params:oauth:grant-type:device_code"}
                 if op.get("dc") is not None: f["device_code"] = op["dc"]
+                if op.get("req_scope") is not None: f["scope"] = op["req_scope"]      # a scope parameter on the token request: what was approved stays what is issued
                 r = ms.fw_call(srv, Req("POST", ms.TOKEN_URL, dict(f, **extra), hdr), "create_token_response")
             elif k == "issue_password":
                 f = {"grant_type": "password", "password": "pw"}
@@ -214,6 +232,8 @@ def gen_history(rng, length, flavor, pkce_required=False, supported=None, strict
             op = {"op": k, "auth": auth(prefer=owner), "code": code[0] if isinstance(code, tuple) else code,
                   "redirect": (code[2] if rng.random() < 0.8 else rng.choice([None, "https://evil/cb", "https://c1/cb"])) if isinstance(code, tuple) else None,
                   "verifier": rng.choice([None, V43, V43, V_ALT, "short", V43 + "\n", V43 + "x"])}
+            if rng.random() < 0.3:
+                op["req_scope"] = rng.choice(["a", "a b", "c", "a b c"])
         elif k == "device_authorize":
             a = auth()
             # request.client_id is what gets stored with the device code: for post / none it IS the authenticating client_id parameter,
@@ -230,6 +250,8 @@ def gen_history(rng, length, flavor, pkce_required=False, supported=None, strict
         elif k == "poll":
             d = rng.choice(dcs) if dcs and rng.random() < 0.9 else None
             op = {"op": k, "auth": auth(prefer=d[1] if d else None), "dc": d[0] if d else rng.choice([None, "dc999", "x"])}
+            if rng.random() < 0.3:
+                op["req_scope"] = rng.choice(["a", "a b", "c", "a b c"])
         elif k == "issue_password":
             op = {"op": k, "auth": auth(), "user": rng.choice([1, 2, 2, None]), "scope": rng.choice(scopes)}
         elif k == "issue_cc":
@@ -247,6 +269,8 @@ def gen_history(rng, length, flavor, pkce_required=False, supported=None, strict
             if t is None and rts and rng.random() < 0.6:
                 t = rng.choice(rts)           # a live refresh token string presented as a bearer token
             op = {"op": k, "token": (t[0] if t else rng.choice([None, "at999", "rt1", "zzz"])), "required": rng.choice([None, None, ["a"], ["a b"], ["z"], ["c", "a"], []])}
+            if rng.random() < 0.35:
+                op["via"] = "introspection"
         else:
             op = {"op": "advance", "dt": rng.choice([1, 3, 10, 299, 301, 1700, 1801, 3601, 900000])}
         if fault_p and op["op"] not in ("advance", "user_decide") and rng.random() < fault_p:
